@@ -406,6 +406,7 @@ struct timespec* sentTime) {
       }
     }
     clockGettime(&m_lastSynReceiveTime);
+    m_crc = 0;  // an escape symbol received directly after the previous SYN must not influence the CRC of the next message
     return setState(bs_ready, m_state == bs_skip || m_remainLockCount > 0 ? result : RESULT_ERR_SYN);
   }
 
